@@ -402,7 +402,7 @@ theorem refreshNonConfirmedComposition_inv (hrc : ComposeSpec env.recompose) {c 
   · exact h
 
 theorem setOptionRaw_inv {c : Ctx} (h : Inv c) (n : String) (v : Bool) : Inv (c.setOptionRaw n v) :=
-  h.of_same rfl rfl h.segs_ok
+  h.of_same rfl rfl (by rw [Ctx.setOptionRaw_segs]; exact h.segs_ok) (Ctx.setOptionRaw_cinput c n v)
 
 theorem setOption_inv (hrc : ComposeSpec env.recompose) {c : Ctx} (h : Inv c) (n : String) (v : Bool) :
     Inv (setOption env c n v) := by
